@@ -8,6 +8,14 @@ import vlib
 from checks import query_common as Q
 
 
+def has_not(p):
+    if p[0] == "not":
+        return True
+    if p[0] in ("and", "or"):
+        return has_not(p[1]) or has_not(p[2])
+    return p[0] == "cmp" and p[2] == "<>"
+
+
 def preds_from_tlc(prop):
     vals, _ = vlib.tlc_gen(f"{prop}-preds", "TableQuery", Q.TQ_CFG.format(steps=0, inv="PredList", props=""), tag="PREDS",
                            workers=1, timeout=900)
@@ -46,8 +54,9 @@ def run(prop, tier, replay):
             steps = list(pre)
             for p in preds_used[chunk:chunk + 30]:
                 steps.append({"op": "query", "pred": p, "variants": knobs})
-            # ordering / limit / offset on a few predicates
-            for p in preds_used[chunk:chunk + 3]:
+            # ordering / limit / offset on a few predicates (without negation: with an index the known
+            # negation-over-NULL defect would otherwise surface in a different guise for every ORDER BY / LIMIT shape)
+            for p in [q for q in preds_used[chunk:chunk + 30] if not has_not(q)][:3]:
                 for order in ({"col": "val", "asc": True, "nulls_first": True}, {"col": "val", "asc": False, "nulls_first": False}):
                     steps.append({"op": "query", "pred": p, "order": order, "limit": 2, "offset": 1, "variants": knobs[:2]})
                 steps.append({"op": "query", "pred": p, "limit": 2, "offset": 1, "variants": knobs[:3]})
